@@ -392,10 +392,14 @@ def with_helpers(P, fns):
         paired |= set(refwrites.PAIRS.values())
     except Exception:
         pass
-    seen, out, work = set(), [], [f.path for f in fns]
+    from collections import deque
+    seen, out = set(), []
+    work = deque(f.path for f in fns)
     roots = set(work)
+    # breadth first, the paired functions themselves first: a long chain of helpers below one of them (checksum kernels)
+    # must not push another paired function out of the bound
     while work:
-        p = work.pop()
+        p = work.popleft()
         if p in seen:
             continue
         seen.add(p)
@@ -403,7 +407,7 @@ def with_helpers(P, fns):
         if f is None:
             continue
         out.append(f)
-        if len(out) > 25:
+        if len(out) > 25 + len(roots):
             break
         for c in f.live_calls():
             cp = c.callee
